@@ -335,7 +335,7 @@ def gen_call(rng, sig, exprs):
 
 
 SITES = ["choice", "choice", "conditional-choice", "choice-in-if", "choice-in-for", "jump", "jump-in-if", "jump-in-for",
-         "jump-in-join-block", "choice-from-parameterised-passage", "jump-from-parameterised-passage"]
+         "choice-in-join-section", "choice-from-parameterised-passage", "jump-from-parameterised-passage"]
 
 
 def gen_default_chain_story(rng, stats):
@@ -370,8 +370,9 @@ def gen_default_chain_story(rng, stats):
                 hubs.append([f":: {hub}", "@if base > 1:", f"-> {call}", "@else:", "-> Start", "@endif"])
             elif site == "jump-in-for":
                 hubs.append([f":: {hub}", "@for i in [1, 2]:", f"  -> {call}", "@endfor"])
-            elif site == "jump-in-join-block":
-                hubs.append([f":: {hub}", "+ [Wait] -> @join", f"    -> {call}", "+ [Back] -> Start", "@join", "Joined."])
+            elif site == "choice-in-join-section":
+                hubs.append([f":: {hub}", "+ [Wait] -> @join", "    Waiting.", f"+ [Call] -> {call}", "@join", "Joined.",
+                             f"+ [Again] -> {call}", "+ [Back] -> Start"])
             else:
                 # the caller has parameters of its own and passes them on (arguments evaluated in its local scope)
                 csig = gen_signature(rng, hub)
@@ -531,7 +532,7 @@ def run(tier: str, seed: int) -> int:
         "passages with 1-4 parameters whose defaults refer to earlier parameters (the previous one = chains, any earlier "
         "one, two of them; arithmetic, displays, conditional expressions) or are literals, called with k positional "
         "arguments, by keyword, mixed, relying on defaults, from choices (plain, conditional, in @if/@for), jumps (plain, in "
-        "@if/@for, in a join block) and from passages that pass their own parameters on"))
+        "@if/@for), choices beside a join choice and after @join, and from passages that pass their own parameters on"))
     chk.notes["input_distribution"] = dist
     chk.notes["play_bounds"] = {"exhaustive_depth": depth, "paths_per_story_cap": cap, "random_walks": n_walks,
                                 "walk_length": walk_len}
